@@ -68,8 +68,10 @@ class C19(Prop):
 
     def extract(self, ctx):
         rows = e_cascade.evaluate(REPO)
-        changed = write_if_changed(LEAN / "Operon/Gen/CascadeTable.lean", e_cascade.render(rows))
-        return ([{"id": "E-cascade", "rows": None if rows is None else len(rows), "facts_changed": changed}]
+        mapk = None if rows is None else e_cascade.evaluate_mapk(REPO)
+        changed = write_if_changed(LEAN / "Operon/Gen/CascadeTable.lean", e_cascade.render(rows, mapk))
+        return ([{"id": "E-cascade", "rows": None if rows is None else len(rows), "mapk_preset_evaluated": mapk is not None,
+                  "facts_changed": changed}]
                 + py2lean_cascade.run(REPO, LEAN, write_if_changed))
 
     # --- generation --------------------------------------------------------------------------------------
